@@ -171,6 +171,8 @@ class Gen:
             return {"k": "try", "e": self.expr(ctx, opt(T(ty)), d - 1)}
         if ty in ("u8", "u16", "u32", "felt", "i16", "u64") and r.random() < 0.06:
             return self.array_probe(ctx, ty, d)
+        if r.random() < 0.07:
+            return self.pass_trigger(ctx, ty, d)
         c = r.random()
         if c < 0.12 and vs:
             return {"k": "var", "n": r.choice(vs)[0]}
@@ -261,6 +263,53 @@ class Gen:
             if idx:
                 return {"k": "field", "i": r.choice(idx) + 1, "e": self.expr(ctx, s, d - 1)}
         return {"k": "block", "ss": [], "tail": self.int_expr(ctx, ty, d - 1)}
+
+    def pass_trigger(self, ctx, ty, d):
+        """Shapes that the lowering optimisations rewrite (CSE, dedup blocks, match optimisation, return optimisation,
+        split structs, reboxing, numeric match lowering)."""
+        import copy
+        r = self.r
+        kind = r.choice(["cse", "dedup", "idmatch", "rebox", "bigmatch", "matchif", "destruct"])
+        if kind == "cse":
+            e = self.int_expr(ctx, ty, d - 1)
+            op = r.choice(["add", "sub", "mul"])
+            return {"k": "bin", "op": op, "ty": ty, "l": e, "r": copy.deepcopy(e)}
+        if kind == "dedup":
+            e = self.int_expr(ctx, ty, d - 1)
+            return {"k": "if", "c": self.bool_expr(ctx, d - 1), "t": {"k": "block", "ss": [], "tail": e},
+                    "e": {"k": "block", "ss": [], "tail": copy.deepcopy(e)}}
+        if kind == "idmatch":
+            ot = opt(T(ty))
+            n = self.fresh(ctx)
+            ident = {"k": "match", "ety": ot, "e": self.expr(ctx, ot, d - 1),
+                     "arms": [{"n": n, "body": {"k": "enum", "tag": 0, "ety": ot, "e": {"k": "var", "n": n}}},
+                              {"n": "", "body": {"k": "enum", "tag": 1, "ety": ot, "e": NONE}}]}
+            m = self.fresh(ctx)
+            return {"k": "match", "ety": ot, "e": ident,
+                    "arms": [{"n": m, "body": {"k": "var", "n": m}}, {"n": "", "body": self.lit(ty)}]}
+        if kind == "rebox":
+            return {"k": "unbox", "e": {"k": "box", "e": {"k": "unbox", "e": {"k": "box", "e": self.int_expr(ctx, ty, d - 1)}}}}
+        if kind == "bigmatch" and ty in ("u8", "u16", "u32"):
+            n_arms = r.choice([4, 5, 6, 7])
+            scr = {"k": "bin", "op": "rem", "ty": ty, "l": self.int_expr(ctx, ty, d - 1), "r": {"k": "lit", "v": n_arms + r.choice([0, 1, 2]), "ty": ty}}
+            arms = [{"vals": [i], "body": self.int_expr(ctx, ty, 0)} for i in range(n_arms)]
+            return {"k": "matchint", "ty": ty, "e": scr, "arms": arms, "dflt": self.int_expr(ctx, ty, 0)}
+        if kind == "matchif":
+            ot = opt(T(ty))
+            n = self.fresh(ctx)
+            scr = {"k": "if", "c": self.bool_expr(ctx, d - 1),
+                   "t": {"k": "block", "ss": [], "tail": {"k": "enum", "tag": 0, "ety": ot, "e": self.int_expr(ctx, ty, d - 1)}},
+                   "e": {"k": "block", "ss": [], "tail": {"k": "enum", "tag": 1, "ety": ot, "e": NONE}}}
+            return {"k": "match", "ety": ot, "e": scr, "arms": [{"n": n, "body": {"k": "var", "n": n}}, {"n": "", "body": self.lit(ty)}]}
+        if kind == "destruct" and self.structs:
+            st = r.choice(self.structs)
+            idx = [i for i, x in enumerate(st["ts"]) if teq(x, T(ty))]
+            if idx:
+                ns = [self.fresh(ctx) for _ in st["ts"]]
+                rebuilt = {"k": "tuple", "name": st["name"], "es": [{"k": "var", "n": n} for n in ns]}
+                return {"k": "block", "ss": [{"k": "letstruct", "name": st["name"], "ns": ns, "e": self.expr(ctx, st, d - 1)}],
+                        "tail": {"k": "field", "i": r.choice(idx) + 1, "e": rebuilt}}
+        return self.int_expr(ctx, ty, d - 1)
 
     def array_probe(self, ctx, ty, d):
         """A block that builds a local array, pops / appends / indexes it and yields one of the observed elements."""
@@ -658,7 +707,10 @@ def src(e):
             has_payload = t["vs"][tag]["k"] != "unit"
             pat = base + (f"({arm['n'] or '_'})" if has_payload else "")
             arms.append(f"{pat} => {{ {src(arm['body'])} }},")
-        return f"match {src(e['e'])} {{ " + " ".join(arms) + " }"
+        scr = src(e["e"])
+        if e["e"]["k"] in ("if", "block", "match", "matchint", "loop"):
+            scr = f"({scr})"
+        return f"match {scr} {{ " + " ".join(arms) + " }"
     if k == "matchint":
         arms = [f"{' | '.join(str(v) for v in a['vals'])} => {{ {src(a['body'])} }}," for a in e["arms"]]
         arms.append(f"_ => {{ {src(e['dflt'])} }},")
@@ -723,6 +775,8 @@ def stmt_src(s):
         return f"let {'mut ' if s['mut'] else ''}{s['n']}: {cty(s['ty'])} = {src(s['e'])};"
     if k == "lettuple":
         return f"let ({', '.join(s['ns'])}) = {src(s['e'])};"
+    if k == "letstruct":
+        return f"let {s['name']} {{ " + ", ".join(f"f{i + 1}: {n}" for i, n in enumerate(s["ns"])) + f" }} = {src(s['e'])};"
     if k == "set":
         return f"{s['n']} = {src(s['e'])};"
     if k == "opset":
@@ -762,6 +816,9 @@ def strip_types(node):
         if node.get("k") == "let":
             d.pop("ty", None)
             d.pop("mut", None)
+        if node.get("k") == "letstruct":
+            d["k"] = "lettuple"
+            d.pop("name", None)
         return d
     if isinstance(node, list):
         return [strip_types(x) for x in node]
